@@ -19,7 +19,7 @@ PROPS = {
         "consts": ["session_key_length"],
         "runner": "run_C07",
         "byte_exact": True,
-        "rule": "random and edge-case keys x streams (lengths 0,1,39,40,41,79..81,255..257, random) x random partitions incl. empty chunks, both directions, through model and implementation; plus implementation-only oracles: spec recurrence + round trip with independent chunkings, and the exhaustive 40x256x256 step table.",
+        "rule": "random and edge-case keys x streams (lengths 0,1,39,40,41,79..81,255..257, random) x random partitions incl. empty chunks, both directions, through model and implementation; plus implementation-only oracles: spec recurrence + round trip with independent chunkings, and the exhaustive 40x256x256 step table. Added in the second session: header-shaped partitions (mostly 4- and 6-byte calls with odd-length and empty calls in between) and, in two thirds of the cases, the typed helpers (encrypt/decrypt_server_header, encrypt/decrypt_client_header) instead of the raw call for every 4-/6-byte chunk.",
         "trusted": [],
         "assumptions": ["bytes are modelled as N < 256; u8 arithmetic rendered with explicit mod 256 and explicit overflow panics"],
     },
@@ -37,7 +37,7 @@ PROPS = {
         "consts": ["max_string_length"],
         "runner": "run_C13",
         "byte_exact": True,
-        "rule": "strings as lists of Unicode scalar values: every ASCII byte at positions 0..15 of a 16-byte string, every single ASCII char, lengths 0..20, random mixes of 1/2/3/4-byte characters summing to 13..18 bytes, random mostly-valid strings through all five constructors, ==/cmp on related pairs (case variants, prefixes, one-char changes); implementation-only oracle: every scalar value as a one-character string and behind a 15-byte prefix, random strings, idempotence, case-insensitivity, Hash/Display following the text.",
+        "rule": "strings as lists of Unicode scalar values: every ASCII byte at positions 0..15 of a 16-byte string, every single ASCII char, lengths 0..20, random mixes of 1/2/3/4-byte characters summing to 13..18 bytes, random mostly-valid strings through all five constructors, ==/cmp on related pairs (case variants, prefixes, one-char changes); implementation-only oracle: every scalar value as a one-character string and behind a 15-byte prefix, random strings, idempotence, case-insensitivity, Hash/Display following the text. Added in the second session: every oracle string goes through all five constructors and must give the same outcome as `new`; multibyte mixes and a list of case-mapping specials (sharp s, dotless i, long s, Kelvin sign, ligatures) through every constructor and the model.",
         "trusted": ["Rust str/char semantics as modelled (chars(), len(), is_ascii, is_ascii_control, to_ascii_uppercase, derived Ord/Eq on (array, length)); the private fields are read through the derived Debug output"],
         "assumptions": ["a Rust &str is modelled as a list of Unicode scalar values; SipHash (derived Hash) is not modelled, hashing is covered by injectivity of text -> struct"],
     },
@@ -48,7 +48,7 @@ PROPS = {
         "consts": ["n_le", "generator", "k_value", "xor_hash", "salt_length", "private_key_length", "session_key_length", "reconnect_challenge_data_length", "s_length", "public_key_length"],
         "runner": "run_C01",
         "byte_exact": False,
-        "rule": "complete logins through the public API with an injected tape (salt, b, a, challenge), credentials of every length 1..16 over the printable set with random case flips on the client side, export/re-import of the account record; classes forced by Rust-side search: S with 1 (thorough: 2) low-order zero bytes, S/A/B/v with a high-order zero byte, B < v (B - k*v negative); every value (v, B, A, M1, M2, K on both sides, challenge) compared with the Coq model; implementation-only oracle: tens of thousands of honest logins (all must authenticate with equal keys) plus directed sessions with S = 0 mod 256.",
+        "rule": "complete logins through the public API with an injected tape (salt, b, a, challenge), credentials of every length 1..16 over the printable set with random case flips on the client side, export/re-import of the account record; classes forced by Rust-side search: S with 1 (thorough: 2) low-order zero bytes, S/A/B/v with a high-order zero byte, B < v (B - k*v negative); every value (v, B, A, M1, M2, K on both sides, challenge) compared with the Coq model; implementation-only oracle: tens of thousands of honest logins (all must authenticate with equal keys) plus directed sessions with S = 0 mod 256. Added in the second session: two-step histories on ONE thread (a mistyped password on the same record, the same account under another password / salt / session keys, another account under the same salt, the identical login) followed by the honest login, which also goes through the model.",
         "trusted": [BIG, SHA, "num-bigint from_bytes_le / to_bytes_le / modpow / * + - % as modelled in model/Bigint.v", "primality certificate chain for N checked by vm_compute (primes/PockZ.v; MathComp ssreflect used for Pocklington's criterion)"],
         "assumptions": ["the documented panic of into_proof (server's own B = 0 mod N) is excluded by hypothesis", "usernames/passwords enter the model as their normalised text; normalisation itself is C13"],
     },
@@ -58,7 +58,7 @@ PROPS = {
         "consts": ["tbc_seed_enc", "tbc_seed_dec", "proof_length"],
         "runner": "run_C08",
         "byte_exact": True,
-        "rule": "random and edge-case 40-byte session keys x streams (lengths 0,1,19,20,21,39..41,255..257, random) x random partitions incl. empty chunks, both halves, through model (concrete HMAC-SHA1 in Coq) and implementation, comparing bytes, derived key and (index, previous); implementation-only oracles: independent HMAC key derivation, spec recurrence, round trip with independent chunkings, exhaustive 20x256x256 step table.",
+        "rule": "random and edge-case 40-byte session keys x streams (lengths 0,1,19,20,21,39..41,255..257, random) x random partitions incl. empty chunks, both halves, through model (concrete HMAC-SHA1 in Coq) and implementation, comparing bytes, derived key and (index, previous); implementation-only oracles: independent HMAC key derivation, spec recurrence, round trip with independent chunkings, exhaustive 20x256x256 step table. Added in the second session: header-shaped partitions and the typed helpers standing in for the 4-/6-byte raw calls, as for C07.",
         "trusted": [SHA],
         "assumptions": ["bytes are modelled as N < 256; u8 arithmetic rendered with explicit mod 256 and explicit overflow panics"],
     },
@@ -68,7 +68,7 @@ PROPS = {
         "consts": ["proof_length", "session_key_length", "wrath_S", "wrath_R", "tbc_seed_enc", "tbc_seed_dec"],
         "runner": "run_C06",
         "byte_exact": True,
-        "rule": "all three modules (vanilla, tbc, wrath) x sessions with names of every length, seeds from {0,1,0xFFFFFFFF,0x80000000,...} and random, equal seeds, swapped seeds (own seed injected through the RNG tape at ProofSeed::new): client proof and seed() accessor, server accept, and refusing perturbations (proof bit flips - all 160 in thorough -, either seed, swapped seeds, one key bit, other username, case-only change of the name); implementation-only oracle: spec value, agreement, bit flip payloads, seed order, key binding.",
+        "rule": "all three modules (vanilla, tbc, wrath) x sessions with names of every length, seeds from {0,1,0xFFFFFFFF,0x80000000,...} and random, equal seeds, swapped seeds (own seed injected through the RNG tape at ProofSeed::new): client proof and seed() accessor, server accept, and refusing perturbations (proof bit flips - all 160 in thorough -, either seed, swapped seeds, one key bit, other username, case-only change of the name); implementation-only oracle: spec value, agreement, bit flip payloads, seed order, key binding. Added in the second session: near-miss proofs on the refusing path (model cases and oracle).",
         "trusted": [SHA],
         "assumptions": ["the crypto object handed out is compared only through the proof/accept decision here; its behaviour is C07-C10"],
     },
@@ -89,7 +89,7 @@ PROPS = {
         "consts": ["n_le", "generator", "k_value", "xor_hash", "proof_length", "session_key_length", "reconnect_challenge_data_length"],
         "runner": "run_C02",
         "byte_exact": False,
-        "rule": "baseline sessions (tape-injected salt, b, a) through the public API; per session, compared with the Coq model: the accepted M1 plus single-bit flips of M1 in one batched server case (all 160 in thorough), the accepted M2 plus flips on the client, A with one bit changed, and client proofs computed with a changed salt bit, B bit, other password, other username (all must be refused with payload (presented, expected)) and a case-only change (must be accepted); implementation-only oracle: all 160 flips of M1 and M2 and random A/B/salt/credential changes on hundreds of sessions.",
+        "rule": "baseline sessions (tape-injected salt, b, a) through the public API; per session, compared with the Coq model: the accepted M1 plus single-bit flips of M1 in one batched server case (all 160 in thorough), the accepted M2 plus flips on the client, A with one bit changed, and client proofs computed with a changed salt bit, B bit, other password, other username (all must be refused with payload (presented, expected)) and a case-only change (must be accepted); implementation-only oracle: all 160 flips of M1 and M2 and random A/B/salt/credential changes on hundreds of sessions. Added in the second session: structured near misses of M1 and M2 (two bytes changed by the same XOR mask, +d/-d, swapped bytes, differences confined to the last bytes / the first byte, reversal) on both sides; sessions whose secret S has a rare byte shape (00 xx.., ..00, 00 xx 00.., 00 00 xx..) found by a textbook-arithmetic search, with the server run on the textbook M1 and the client on the textbook M2.",
         "trusted": [BIG, SHA, "num-bigint primitives as modelled in model/Bigint.v"],
         "assumptions": ["'a different field is refused' is proved in collision form (C02_binding): acceptance with a differing field exhibits two different byte strings with equal SHA-1"],
     },
@@ -99,7 +99,7 @@ PROPS = {
         "consts": ["reconnect_challenge_data_length", "proof_length", "session_key_length"],
         "runner": "run_C05",
         "byte_exact": False,
-        "rule": "random histories (1..40 attempts quick, ..400 thorough) on logged-in servers drawn from {correct for the current challenge, replay of any earlier pair, proof for a stale challenge, wrong session key, wrong username, single-bit change of proof or client data}, every new server challenge injected through the RNG tape so the model predicts verdicts and challenges byte for byte; client reconnect values with injected challenge; implementation-only oracle: long histories with injected and with real randomness (verdict = proof equality, challenge replaced after every attempt, replays refused, legitimate client accepted).",
+        "rule": "random histories (1..40 attempts quick, ..400 thorough) on logged-in servers drawn from {correct for the current challenge, replay of any earlier pair, proof for a stale challenge, wrong session key, wrong username, single-bit change of proof or client data}, every new server challenge injected through the RNG tape so the model predicts verdicts and challenges byte for byte; client reconnect values with injected challenge; implementation-only oracle: long histories with injected and with real randomness (verdict = proof equality, challenge replaced after every attempt, replays refused, legitimate client accepted). Added in the second session: near-miss proofs (cancelling / confined differences) as an attempt kind.",
         "trusted": [BIG, SHA],
         "assumptions": ["a replay is refused unless two challenges coincide or SHA-1 collides (C05_replay); distinctness of challenges is the RNG's job (C15)", "the server state (user, K, challenge) is read through the public accessors after a real login"],
     },
@@ -161,7 +161,7 @@ PROPS = {
         "consts": ["pin_ascii_offset", "min_pin_length", "max_pin_length", "pin_salt_size"],
         "runner": "run_C16",
         "byte_exact": True,
-        "rule": "remap_pin_grid (hook) on seeds {0, 1, 10!-1, 10!, 10!+1, 2^32-1, radix boundaries, random}; calculate_hash on PINs {0, 999, 1000, 1001, 9999, 10000, 99999, 10^9-1, 10^9, 2^32-1, random of every digit length 1..10} x seeds x random/zero/0xff salts; verify_client_pin_hash with the right hash, single-bit flips (all 160 in thorough), hashes for another PIN / seed / salt, seed+10!, PINs below 1000; implementation-only oracle against an independent specification in the harness: residues modulo 10! through the hook (quick: every 61st; thorough: EVERY residue 0..3,628,800: permutation, equals the specification, equals the grid of seed+10! and seed+2*10!), every PIN 0..9999 on one seed, random (pin, seed, salts) with verify iff.",
+        "rule": "remap_pin_grid (hook) on seeds {0, 1, 10!-1, 10!, 10!+1, 2^32-1, radix boundaries, random}; calculate_hash on PINs {0, 999, 1000, 1001, 9999, 10000, 99999, 10^9-1, 10^9, 2^32-1, random of every digit length 1..10} x seeds x random/zero/0xff salts; verify_client_pin_hash with the right hash, single-bit flips (all 160 in thorough), hashes for another PIN / seed / salt, seed+10!, PINs below 1000; implementation-only oracle against an independent specification in the harness: residues modulo 10! through the hook (quick: every 61st; thorough: EVERY residue 0..3,628,800: permutation, equals the specification, equals the grid of seed+10! and seed+2*10!), every PIN 0..9999 on one seed, random (pin, seed, salts) with verify iff. Added in the second session: near-miss hashes in the verify cases and the oracle.",
         "trusted": [SHA],
         "assumptions": ["refusal of a wrong PIN is stated as accepted <-> presented = the specified hash; SHA-1 is not assumed injective"],
     },
@@ -172,7 +172,7 @@ PROPS = {
         "consts": ["rc4_state_size", "min_matrix_card_value", "max_matrix_card_value", "session_key_length"],
         "runner": "run_C18",
         "byte_exact": True,
-        "rule": "op 1: MatrixCard::from_data + get_number_at_coordinates + to_printer on geometries with width*height <= 255 (all with w,h <= 16 in thorough), digit counts 1..4, random data, corner/random/every coordinate, wrong lengths, off-card coordinates; op 2: coordinates for ALL rounds 0..=255 with seeds {0, 1, 2^64-1, random} x counts {1, 2, cells-1, cells}; ops 3, 4: honest client (digits read off the printer) vs verify_matrix_card_hash, wrong / missing / extra digits, swapped cells, wrong count / seed / key, flipped proof, the crate's two proof vectors; implementation-only oracle over every coordinate of every sampled card, all rounds, honest client accepted, single wrong digit rejected, MatrixCard::new digits decimal; probe of known finding F5 (digit_count = 0).",
+        "rule": "op 1: MatrixCard::from_data + get_number_at_coordinates + to_printer on geometries with width*height <= 255 (all with w,h <= 16 in thorough), digit counts 1..4, random data, corner/random/every coordinate, wrong lengths, off-card coordinates; op 2: coordinates for ALL rounds 0..=255 with seeds {0, 1, 2^64-1, random} x counts {1, 2, cells-1, cells}; ops 3, 4: honest client (digits read off the printer) vs verify_matrix_card_hash, wrong / missing / extra digits, swapped cells, wrong count / seed / key, flipped proof, the crate's two proof vectors; implementation-only oracle over every coordinate of every sampled card, all rounds, honest client accepted, single wrong digit rejected, MatrixCard::new digits decimal; probe of known finding F5 (digit_count = 0). Added in the second session: near-miss proofs in the verify cases.",
         "trusted": [SHA, "MD5 modelled as executable Gallina (lib/Md5.v, RFC 1321 vectors); RC4 is repo code, modelled and proved to refine textbook RC4"],
         "assumptions": ["guards: 1 <= digit_count (digit_count = 0 is known finding F5), 1 <= width*height <= 255, data of the right length, 1 <= challenge_count <= cells, seed < 2^64", "'any other digit sequence is rejected' is proved in binding form: rejected, or an explicit HMAC-SHA1 collision"],
     },
@@ -183,7 +183,7 @@ PROPS = {
         "byte_exact": False,
         "debug_run": False,
         "second_harness": {"dir": "harness-fast", "exe": "wsvfast", "raw_ops": [20, 22, 23]},
-        "rule": "the same harness sources are built twice, against srp-default-math (num-bigint) and srp-fast-math (rug + system GMP through a vendored gmp-mpfr-sys build script); inputs are a function of the seed only, so every case is run by both real builds and compared pairwise, and each build's outputs are evaluated through the Coq model of its own back end (four-way comparison). Cases: wrapper operations (byte round trip, padding, modpow of a possibly negative difference, mul-add-rem, zero tests) on operands of every length 0..40, zero / one / two / 160-bit / 256-bit exponents, odd, even, tiny and zero moduli; SRP internals with private values zero, one, random, high-zero-byte; client S / A under ten prime moduli plus 2, 4, 10, 1; logins (also with b = 0 and a = 0), server with stored values, client API under N' = 2 and 5, verifier. Raw magnitudes of zero ([0] vs []) are an internal encoding difference and are canonicalised before the pairwise comparison (the model keeps them distinct and the padding theorem shows they vanish at the API).",
+        "rule": "the same harness sources are built twice, against srp-default-math (num-bigint) and srp-fast-math (rug + system GMP through a vendored gmp-mpfr-sys build script); inputs are a function of the seed only, so every case is run by both real builds and compared pairwise, and each build's outputs are evaluated through the Coq model of its own back end (four-way comparison). Cases: wrapper operations (byte round trip, padding, modpow of a possibly negative difference, mul-add-rem, zero tests) on operands of every length 0..40, zero / one / two / 160-bit / 256-bit exponents, odd, even, tiny and zero moduli; SRP internals with private values zero, one, random, high-zero-byte; client S / A under ten prime moduli plus 2, 4, 10, 1; logins (also with b = 0 and a = 0), server with stored values, client API under N' = 2 and 5, verifier. Raw magnitudes of zero ([0] vs []) are an internal encoding difference and are canonicalised before the pairwise comparison (the model keeps them distinct and the padding theorem shows they vanish at the API). Added in the second session: limb-boundary operands (low 4/8/12/16/24 bytes zero, exact powers of two and predecessors, high zero limbs) for all wrapper operations, moduli 2^(8k)*odd and bare powers of two for modpow and for the client functions with even generators, N-1, a public client-API case under N' = 2^64*odd.",
         "trusted": [BIG, SHA, "num-bigint and rug/GMP primitives as modelled in model/Bigint.v (incl. panic conditions)", "the vendored copy of gmp-mpfr-sys whose build script accepts the system GMP 6.2.1 in place of 6.3.0 (use-system-libs); GMP itself"],
         "assumptions": ["decided on the repaired GMP body (fix commit afd25dc: fall back to pow_mod when secure_pow_mod's preconditions fail); the pinned body is kept as modpow_fast_v070 with its refutation"],
     },
@@ -193,7 +193,7 @@ PROPS = {
         "consts": ["wrath_large_threshold", "wrath_marker_set", "wrath_marker_clear", "wrath_marker_test", "vanilla_client_header_length", "vanilla_server_header_length", "wrath_server_header_min_length", "wrath_server_header_max_length", "session_key_length", "proof_length", "tbc_seed_enc", "tbc_seed_dec", "wrath_S", "wrath_R"],
         "runner": "run_C11",
         "byte_exact": True,
-        "rule": "all 12 (module, header kind, half/combined) selectors: typed encrypt/decrypt helpers over sizes {0,1,0xFF,0x100,0x7FFF,0x8000,0xFFFF} (Wrath server also 0x10000..0x7FFFFF and beyond) x opcodes {0,1,0xFF,0x100,0x1EE,0xFFFF} (+ u32 values) from random cipher states; read_and_decrypt_X through scripted readers: a failure injected at EVERY byte offset of every header kind (incl. the fifth byte of a long Wrath header, then resumed with decrypt_large_server_header) for every error kind + end of file + zero-length read, three fragmentations of the delivered prefix, plus random fragmentations with interruptions and surplus bytes; write_encrypted_X through scripted writers failing at every offset with every kind / WriteZero, and succeeding writers of every granularity. Every case goes through the implementation and the Coq model (result, bytes handed over, unread bytes, cipher state observed as (index, previous[, key]) or by an 8-byte probe for Wrath); implementation-only oracles: helper = raw call on the wire layout, state unchanged after a failed read, error kind returned unchanged, nothing consumed beyond the header, writer received a prefix / exactly the header.",
+        "rule": "all 12 (module, header kind, half/combined) selectors: typed encrypt/decrypt helpers over sizes {0,1,0xFF,0x100,0x7FFF,0x8000,0xFFFF} (Wrath server also 0x10000..0x7FFFFF and beyond) x opcodes {0,1,0xFF,0x100,0x1EE,0xFFFF} (+ u32 values) from random cipher states; read_and_decrypt_X through scripted readers: a failure injected at EVERY byte offset of every header kind (incl. the fifth byte of a long Wrath header, then resumed with decrypt_large_server_header) for every error kind + end of file + zero-length read, three fragmentations of the delivered prefix, plus random fragmentations with interruptions and surplus bytes; write_encrypted_X through scripted writers failing at every offset with every kind / WriteZero, and succeeding writers of every granularity. Every case goes through the implementation and the Coq model (result, bytes handed over, unread bytes, cipher state observed as (index, previous[, key]) or by an 8-byte probe for Wrath); implementation-only oracles: helper = raw call on the wire layout, state unchanged after a failed read, error kind returned unchanged, nothing consumed beyond the header, writer received a prefix / exactly the header. Added in the second session: boundary sizes (0, 0x7FFE, 0x7FFF, 0x8000, 0x8001, 0xFFFF, 0x10000, 0x7FFFFF) on the write wrappers with succeeding writers.",
         "trusted": [SHA, "std::io::Read::read_exact and std::io::Write::write_all as modelled in lib/IoScript.v from their documentation (retry on Interrupted, UnexpectedEof on a zero-length read, WriteZero on a zero-length write, first other error returned); the model is shown to satisfy the std loop equations and is exercised against the real std loops by the scripted Read/Write implementations of the harness"],
         "assumptions": ["a Read/Write implementation is modelled as a script of per-call outcomes; readers/writers that panic or misreport lengths are outside the model", "the Wrath cipher state is not directly observable in Rust; it is compared through the next 8 keystream bytes"],
     },
@@ -202,7 +202,7 @@ PROPS = {
         "consts": ["session_key_length", "proof_length", "tbc_seed_enc", "tbc_seed_dec", "wrath_S", "wrath_R"],
         "runner": "run_C12",
         "byte_exact": True,
-        "rule": "random histories (<= 60 operations quick, <= 600 thorough) of {encrypt chunk, decrypt chunk, split, unsplit, clone} on the four objects (vanilla, tbc, wrath client, wrath server), chunk lengths 0..300, through implementation and Coq model (per-direction bytes, final shape, final state of both halves); implementation-only oracles: per direction equal to two separate single-direction objects, originals of clones unchanged, a clone taken at a random cut continues like the uncut run; Vanilla unsplit / is_pair_of on key pairs equal / differing in one bit of byte i for each i in 0..39 / unrelated, with the halves advanced beforehand; a real two-thread run of the two halves against the single-threaded run (a TEST, not part of the proof); the syntactic ownership preconditions (#![forbid(unsafe_code)] in src/lib.rs, no Cell/RefCell/Mutex/RwLock/Atomic/static mut/thread_local/unsafe/Rc/Arc in the header modules and rc4.rs; failure kind ownership_precondition).",
+        "rule": "random histories (<= 60 operations quick, <= 600 thorough) of {encrypt chunk, decrypt chunk, split, unsplit, clone} on the four objects (vanilla, tbc, wrath client, wrath server), chunk lengths 0..300, through implementation and Coq model (per-direction bytes, final shape, final state of both halves); implementation-only oracles: per direction equal to two separate single-direction objects, originals of clones unchanged, a clone taken at a random cut continues like the uncut run; Vanilla unsplit / is_pair_of on key pairs equal / differing in one bit of byte i for each i in 0..39 / unrelated, with the halves advanced beforehand; a real two-thread run of the two halves against the single-threaded run (a TEST, not part of the proof); the syntactic ownership preconditions (#![forbid(unsafe_code)] in src/lib.rs, no Cell/RefCell/Mutex/RwLock/Atomic/static mut/thread_local/unsafe/Rc/Arc in the header modules and rc4.rs; failure kind ownership_precondition). Added in the second session: a fifth machine, the Wrath client object with its receiving side at header level (4-byte receive = attempt_decrypt_server_header, 1-byte receive = decrypt_large_server_header, cut out of a real server's output; sends, splits and clones between the two steps of long headers; the 4-byte stash is part of the observation).",
         "trusted": [SHA, "Rust ownership: two values that share no memory (no unsafe, no interior mutability, no statics: checked syntactically on every run) cannot influence each other, whichever threads use them"],
         "assumptions": ["PARTIAL for schedules: the model has no threads; a two-thread execution of the two halves is taken to be observationally one of the interleavings quantified over in C12_independent_* because each half owns its state (proof level for histories; schedules rest on this ownership argument and on the two-thread test)", "#[derive(Clone)] is modelled as the identity on immutable model values; the harness checks on the real types that originals of clones stay equal to their snapshots"],
     },
